@@ -127,22 +127,22 @@ def commonPrefix : Bytes → Bytes → Bytes
 
 /-- A member of the list `parser.factor` works on: a branch (a concatenation given by its items; `[]`
     is the empty match), a factored node `prefix · suffix` (its leading sub-expression and what it
-    requires), or a merged character class. -/
+    requires), or a merged character class (`none`: it absorbed a `.`). -/
 inductive Node where
   | br (items : List Item)
   | fact (lead : Item) (req : List Bytes)
   | cls (key : Option (List Nat))
   deriving Repr, DecidableEq, Inhabited
 
-/-- `leadingString`. -/
-def leadingLit : Node → Option (Bytes × Bool)
-  | .br (.lit bs f :: _) => some (bs, f)
-  | _ => none
+/-- `leadingString` of a branch (`([], false)` when it does not start with a literal). -/
+def leadOf : List Item → Bytes × Bool
+  | .lit bs f :: _ => (bs, f)
+  | _ => ([], false)
 
-def dropLit (n : Nat) : Node → List Item
-  | .br (.lit bs f :: rest) => if bs.length ≤ n then rest else .lit (bs.drop n) f :: rest
-  | .br items => items
-  | _ => []
+/-- `removeLeadingString`. -/
+def dropLitB (n : Nat) : List Item → List Item
+  | .lit bs f :: rest => if bs.length ≤ n then rest else .lit (bs.drop n) f :: rest
+  | items => items
 
 /-- `isCharClass`: a single-rune literal, a character class, `.`. -/
 def itemIsCC : Item → Bool
@@ -160,6 +160,11 @@ def itemFactorable : Item → Bool
 def leadingItem : Node → Option Item
   | .br (x :: _) => some x
   | _ => none
+
+/-- `removeLeadingRegexp`. -/
+def dropLead : Node → List Item
+  | .br (_ :: rest) => rest
+  | _ => []
 
 def nodeIsCC : Node → Bool
   | .br [x] => itemIsCC x
@@ -187,10 +192,44 @@ def clsReq : Option (List Nat) → List Bytes
   | some [a, b] => if 65 ≤ a && a ≤ 90 && b == a + 32 && a != 75 && a != 83 then [toLower [a.toUInt8]] else []
   | _ => []
 
+/-- What a node of a suffix (not pushed) requires. -/
 def nodeReq : Node → List Bytes
   | .br items => itemsReq items
   | .fact _ req => req
   | .cls _ => []
+
+/-- A finished run of round 1 (`rec` = the required literals of a factored suffix). -/
+def close1 (rec : List (List Item) → List Bytes) (pre : Bytes) (fold : Bool) : List (List Item) → List Node
+  | [] => []
+  | [m] => [.br m]
+  | ms => [.fact (.lit pre fold) (toLower pre :: rec (ms.map (dropLitB pre.length)))]
+
+/-- Round 1: runs of adjacent branches whose leading literals (same fold flag) share a non-empty
+    prefix become `prefix · (alternation of the rests)`.  State: the common prefix so far, its flag,
+    the members of the current run. -/
+def round1 (rec : List (List Item) → List Bytes) : Bytes → Bool → List (List Item) → List (List Item) → List Node
+  | pre, fold, members, [] => close1 rec pre fold members
+  | pre, fold, members, b :: rest =>
+    if (leadOf b).2 == fold && !(commonPrefix pre (leadOf b).1).isEmpty then
+      round1 rec (commonPrefix pre (leadOf b).1) fold (members ++ [b]) rest
+    else close1 rec pre fold members ++ round1 rec (leadOf b).1 (leadOf b).2 [b] rest
+
+/-- A finished run of round 2. -/
+def close2 (rec : List (List Item) → List Bytes) (first : Option Item) : List Node → List Node
+  | [] => []
+  | [m] => [m]
+  | ms =>
+    match first with
+    | some f => [.fact f (itemReq f ++ rec (ms.map dropLead))]
+    | none => ms
+
+/-- Round 2: runs of adjacent nodes with the same leading character class (or fixed repeat of one). -/
+def round2 (rec : List (List Item) → List Bytes) : Option Item → List Node → List Node → List Node
+  | first, members, [] => close2 rec first members
+  | first, members, nd :: rest =>
+    if (match first with | some f => leadingItem nd == some f && itemFactorable f | none => false) then
+      round2 rec first (members ++ [nd]) rest
+    else close2 rec first members ++ round2 rec (leadingItem nd) [nd] rest
 
 /-- Round 3: runs of two or more single characters / classes become one class. -/
 def round3 : List Node → List Node
@@ -206,6 +245,21 @@ def round4 : List Node → List Node
   | [] => []
 termination_by l => l.length
 
+/-- The four rounds of `parser.factor`. -/
+def factorNodesWith (rec : List (List Item) → List Bytes) (bs : List (List Item)) : List Node :=
+  round4 (round3 (round2 rec none [] (round1 rec [] false [] bs)))
+
+/-- Only a list that collapses to ONE node requires anything. -/
+def reqOfNodes : List Node → List Bytes
+  | [nd] => nodeReq nd
+  | _ => []
+
+/-- The literals required by `collapse(branches, OpAlternate)` inside `factor` (a suffix: not pushed),
+    recursively on the suffixes. -/
+def factorReq : Nat → List (List Item) → List Bytes
+  | 0, _ => []
+  | fuel + 1, bs => reqOfNodes (factorNodesWith (factorReq fuel) bs)
+
 def itemSize' : Item → Nat
   | .lit bs _ => bs.length + 1
   | .other _ _ => 1
@@ -213,56 +267,7 @@ def itemSize' : Item → Nat
 def branchesFuel' (bs : List (List Item)) : Nat :=
   (bs.map fun b => (b.map itemSize').sum + 1).sum + 2
 
-mutual
-/-- The list `parser.factor` returns for the branches — its four rounds, recursively on the suffixes. -/
-def factorNodes : Nat → List (List Item) → List Node
-  | 0, bs => bs.map .br
-  | fuel + 1, branches =>
-    -- a finished run of round 1
-    let close1 (pre : Bytes) (fold : Bool) (members : List Node) : List Node :=
-      match members with
-      | [] => []
-      | [m] => [m]
-      | ms => [.fact (.lit pre fold) (toLower pre :: factorReq fuel (ms.map (dropLit pre.length)))]
-    -- round 1: common literal prefixes of adjacent branches
-    let r1 : List Node :=
-      let (out, pre, fold, members) := branches.foldl (fun (st : List Node × Bytes × Bool × List Node) b =>
-        let (out, pre, fold, members) := st
-        let (istr, ifold) := match leadingLit (.br b) with | some x => x | none => ([], false)
-        let same := commonPrefix pre istr
-        if ifold == fold && !same.isEmpty then (out, same, fold, members ++ [.br b])
-        else (out ++ close1 pre fold members, istr, ifold, [.br b])) ([], [], false, [])
-      out ++ close1 pre fold members
-    -- a finished run of round 2
-    let close2 (first : Option Item) (members : List Node) : List Node :=
-      match first, members with
-      | _, [] => []
-      | _, [m] => [m]
-      | some f, ms => [.fact f (itemReq f ++ factorReq fuel (ms.map fun m => match m with | .br (_ :: rest) => rest | _ => []))]
-      | none, ms => ms
-    -- round 2: common leading character classes
-    let r2 : List Node :=
-      let (out, first, members) := r1.foldl (fun (st : List Node × Option Item × List Node) nd =>
-        let (out, first, members) := st
-        let ifirst := leadingItem nd
-        match first with
-        | some f =>
-          if ifirst == some f && itemFactorable f then (out, first, members ++ [nd])
-          else (out ++ close2 first members, ifirst, [nd])
-        | none => (out ++ close2 first members, ifirst, [nd])) ([], none, [])
-      out ++ close2 first members
-    round4 (round3 r2)
-/-- The literals required by `collapse(branches, OpAlternate)` inside `factor` (a suffix: not pushed).
-    Only a list that collapses to ONE node requires anything. -/
-def factorReq : Nat → List (List Item) → List Bytes
-  | 0, _ => []
-  | fuel + 1, branches =>
-    match factorNodes fuel branches with
-    | [nd] => nodeReq nd
-    | _ => []
-end
-
-/-- Is the branch a single character / class (`isCharClass`), and which characters? -/
+/-- Is the branch a single character / class (`isCharClass`)? -/
 def branchIsCC : List Item → Bool
   | [x] => itemIsCC x
   | _ => false
@@ -282,23 +287,24 @@ def prepass : List (List Item) → List (List Item) → List (List Item)
   | a :: acc, b :: rest =>
     if branchIsCC a && branchIsCC b then prepass (mergeCC a b :: acc) rest else prepass (b :: a :: acc) rest
 
+/-- What the single result of `alternate()` requires once PUSHED. -/
+def pushedReq : List Item → List Bytes
+  | [.other (some (0, 0 :: k)) _] => clsReq (some k)
+  | items => itemsReq items
+
+def topNodesReq : List Node → List Bytes
+  | [.cls k] => clsReq k
+  | [.br items] => pushedReq items
+  | [nd] => nodeReq nd
+  | _ => []
+
 /-- `alternate()`: the branches as merged while reading, factored, collapsed — and PUSHED, which turns
     a resulting class of one character (or of the two cases of a letter) into a literal. -/
 def altTopReq (branches : List (List Item)) : List Bytes :=
-  let pushed (items : List Item) : List Bytes :=
-    match items with
-    | [.other (some (0, 0 :: k)) _] => clsReq (some k)
-    | _ => itemsReq items
   match prepass [] branches with
   | [] => []
-  | [b] => pushed b
-  | bs =>
-    -- the rounds of `factor` at the top level, then the push
-    match factorNodes (branchesFuel' bs) bs with
-    | [.cls k] => clsReq k
-    | [.br items] => pushed items
-    | [nd] => nodeReq nd
-    | _ => []
+  | [b] => pushedReq b
+  | bs => topNodesReq (factorNodesWith (factorReq (branchesFuel' bs)) bs)
 
 /-- The key of a class-like expression inside a fixed repeat. -/
 def baseKey : Re → Option (List Nat)
